@@ -8,6 +8,8 @@ Tie:      a generated program (reader framer with marker needs; writer framers b
           Skedder; an observer framer (last in the tick order) records after every tick the reader's
           active frame and whether it (re-)entered a frame in that tick.  The Lean driver runs the
           model on the same program and schedule; the two traces must be equal.
+          Target frames may carry entry needs (`let me if [not] field in share`) on shares the writers flip,
+          so transitions are attempted and refused as well as taken.
 Oracle:   independent of the Lean model: replays the observed trace against the property itself —
           per (share, marker key) it keeps the update times, the entry-reset times and the
           taken-transition-reset times / the snapshot taken at the last of those moments, and demands
@@ -101,6 +103,11 @@ def flo_need(n):
     return " ".join(out)
 
 
+def flo_guard(g):
+    neg, s, field = g
+    return "%s%s in .s%d" % ("not " if neg else "", field, s)
+
+
 def flo_script(case, acts):
     L = ["house h", ""]
     for i, init in enumerate(case["inits"]):
@@ -126,6 +133,8 @@ def flo_script(case, acts):
     L.append("  framer rd be active first %s" % case["frames"][0]["name"])
     for f in case["frames"]:
         L.append("    frame %s" % f["name"])
+        for g in f.get("guard", []):
+            L.append("      let me if %s" % flo_guard(g))
         for ctx in ("enter", "recur", "exit"):
             if f[ctx]:
                 L.append("      %s" % ctx)
@@ -167,7 +176,9 @@ def drv_need(n):
 def drv_line(case):
     out = ["run"]
     out += drv_list(case["inits"], lambda init: drv_list(init, lambda kv: [kv[0], drv_val(kv[1])]))
-    out += drv_list(case["frames"], lambda f: [f["name"]] + drv_list(f["enter"], drv_write)
+    out += drv_list(case["frames"], lambda f: [f["name"]]
+                    + drv_list(f.get("guard", []), lambda g: ["1" if g[0] else "0", str(g[1]), g[2]])
+                    + drv_list(f["enter"], drv_write)
                     + drv_list(f["recur"], drv_write) + drv_list(f["exit"], drv_write)
                     + drv_list(f["trans"], lambda t: [t["far"]] + drv_list(t["needs"], drv_need)))
     out += drv_list(case["ticks"], lambda t: drv_list(t["wb"], drv_write) + drv_list(t["wa"], drv_write))
@@ -239,6 +250,16 @@ class Spec:
         for w in self.case["frames"][fi]["enter"]:
             self.write(w, now)
 
+    def admits(self, fi):
+        """entry conditions of a frame: `let me if [not] field in share` on the current data"""
+        for neg, s, field in self.case["frames"][fi].get("guard", []):
+            r = bool(self.data[s][field])
+            if neg:
+                r = not r
+            if not r:
+                return False
+        return True
+
     def far(self, fi, t):
         if t["far"] == "me":
             return fi
@@ -287,11 +308,13 @@ def check_trace(case, line):
             f = case["frames"][active]
             taken = None
             for ti, tr in enumerate(f["trans"]):
-                if all(sp.holds(active, nd) for nd in tr["needs"]):
+                # taken = conditions hold and the target frame lets the framer in; a transition that is
+                # only attempted resets nothing ("whenever a transition guarded by that mark is TAKEN")
+                if all(sp.holds(active, nd) for nd in tr["needs"]) and sp.admits(sp.far(active, tr)):
                     taken = (ti, tr)
                     break
             if taken is None:
-                want_active, want_entered, why = active, False, "no condition of frame %s holds" % f["name"]
+                want_active, want_entered, why = active, False, "no transition of frame %s has its conditions true and is admitted by its target" % f["name"]
             else:
                 ti, tr = taken
                 want_active, want_entered = sp.far(active, tr), True
@@ -373,7 +396,16 @@ def gen_case(rng, tier):
             r = rng.random()
             needs = [] if r < 0.07 else [gen_need(fi)] if r < 0.8 else [gen_need(fi), gen_need(fi)]
             trans.append({"far": far, "needs": needs})
-        frames.append({"name": nm, "enter": gen_writes(0.3), "recur": gen_writes(0.15, 1),
+            if needs and style == "mix" and rng.random() < 0.3:
+                # the other kind of condition on the very same share, frame clause and marker (one Mark, two markers)
+                twin = dict(needs[0], k="c" if needs[0]["k"] == "u" else "u", neg=0)
+                trans.append({"far": rng.choice(["me"] + ["=" + x for x in names]), "needs": [twin]})
+        guard = []
+        if fi > 0 and rng.random() < 0.35:
+            for _ in range(rng.choice([1, 1, 2])):
+                gs = rng.randrange(nsh)
+                guard.append([1 if rng.random() < 0.3 else 0, gs, rng.choice(fields[gs])])
+        frames.append({"name": nm, "guard": guard, "enter": gen_writes(0.3), "recur": gen_writes(0.15, 1),
                        "exit": gen_writes(0.2, 1), "trans": trans})
     dens = rng.choice([0.15, 0.35, 0.6])
     ticks = [{"wb": gen_writes(dens), "wa": gen_writes(dens)} for _ in range(nticks)]
@@ -398,11 +430,12 @@ class CHECK(core.Check):
     PROPERTY = "C20"
     LEAN_MODULES = ["IofloModel.Props.C20"]
     ENGINE = "marks"
-    N_QUICK = 350
+    N_QUICK = 300
     N_THOROUGH = 12000
     N_SEARCH = 1500
     RULE = ("programs: 1-2 shares (single 'value' field or fields a,b; all initialised), one reader framer of 1-4 flat "
-            "frames with enter/recur/exit writes and 1-3 transitions each guarded by 0-2 marker needs (updated/changed, "
+            "frames (a third of the later frames with 1-2 entry needs `let me if [not] field in share` on the same shares the "
+            "writers flip) with enter/recur/exit writes and 1-3 transitions each guarded by 0-2 marker needs (updated/changed, "
             "optional not, optional 'in frame [me|name]', optional 'by marker' incl. a marker equal to a frame name), "
             "a writer framer before and one after the reader in the tick order with random writes per tick (put = "
             "stamped update, same or different value; Share.change = unstamped, may add a field), 3-12 ticks, tick "
@@ -425,7 +458,10 @@ class CHECK(core.Check):
                   "missing in the data as of the last reset), C20_not_changed_right_after_snapshot, C20_one_write_after_snapshot. "
                   "Machine part, all programs/logs of the flat reader-framer model: C20_machine_updated / C20_machine_changed "
                   "(every need evaluation in a world reached through a time-ordered log is that history query), "
-                  "C20_run_is_log, C20_decision_world, and the placement done by NeedMarker._resolve: C20_enact_placement "
+                  "C20_run_is_log, C20_decision_world; C20_refused_transition_skipped / C20_taken_transition_admitted / "
+                  "C20_refused_transition_keeps_mark (a transition whose conditions hold but whose target frame refuses "
+                  "entry - `let me if` false - runs no marker act and changes no Mark: resets happen only on TAKEN "
+                  "transitions); C20_shared_by_marker, C20_default_marker_key; and the placement done by NeedMarker._resolve: C20_enact_placement "
                   "(enact markers of a frame = the requests of the needs naming it, no duplicates), C20_tract_placement, "
                   "C20_fire_markers. No _partial theorem. The model is tied to the code by building and running generated "
                   "FloScript programs (writers before and after the reader) with the real Builder and Skedder.")
@@ -482,7 +518,8 @@ class CHECK(core.Check):
         k = "updated+changed" if len(ks) == 2 else "updated" if ks == {"u"} else "changed" if ks == {"c"} else "no-needs"
         shared = any(nd["by"] for f in case["frames"] for t in f["trans"] for nd in t["needs"])
         named = any(nd["cl"] != "-" for f in case["frames"] for t in f["trans"] for nd in t["needs"])
-        return "%s%s%s" % (k, ",by" if shared else "", ",in-frame" if named else "")
+        guarded = any(f.get("guard") for f in case["frames"])
+        return "%s%s%s%s" % (k, ",by" if shared else "", ",in-frame" if named else "", ",entry-guard" if guarded else "")
 
     def shrink_candidates(self, case):
         def clone():
@@ -495,6 +532,8 @@ class CHECK(core.Check):
                 for j in range(len(case["ticks"][i][key])):
                     c = clone(); del c["ticks"][i][key][j]; yield c
         for fi, f in enumerate(case["frames"]):
+            for j in range(len(f.get("guard", []))):
+                c = clone(); del c["frames"][fi]["guard"][j]; yield c
             for ctx in ("enter", "recur", "exit"):
                 for j in range(len(f[ctx])):
                     c = clone(); del c["frames"][fi][ctx][j]; yield c
@@ -538,4 +577,38 @@ def exhaustive_cases(tier):
                              "trans": [{"far": "=A", "needs": [] if back == "go" else [dict(nd, cl="-")]}]}]
                         out.append({"period": "0.125", "inits": [[["value", ["I", 0]]]], "frames": frames, "ticks": ticks,
                                     "origin": "exhaustive"})
+    # the same family with an entry guard on B (`let me if value in .s1`) that a writer opens at tick 2:
+    # an update before that must still count when B finally admits the framer
+    for k in kinds:
+        for cl in clauses:
+            for by in bys:
+                for (i, sl) in places:
+                    for open_at in (1, 2, 3):
+                        ticks = [{"wb": [], "wa": []} for _ in range(nt + 1)]
+                        ticks[i][sl].append(["P", 0, [["value", ["I", 1]]]])
+                        ticks[open_at]["wb"].append(["P", 1, [["value", ["B", 1]]]])
+                        nd = {"k": k, "neg": 0, "s": 0, "cl": cl, "by": by}
+                        frames = [
+                            {"name": "A", "guard": [], "enter": [], "recur": [], "exit": [], "trans": [{"far": "=B", "needs": [nd]}]},
+                            {"name": "B", "guard": [[0, 1, "value"]], "enter": [], "recur": [], "exit": [], "trans": []}]
+                        out.append({"period": "0.125", "inits": [[["value", ["I", 0]]], [["value", ["B", 0]]]],
+                                    "frames": frames, "ticks": ticks, "origin": "exhaustive"})
+    # both kinds of condition on one share with one mark key and the same named frame, in either order
+    for first in kinds:
+        second = "c" if first == "u" else "u"
+        for cl in ("=A", "=B", "bare"):
+            for by in bys:
+                for combo in [()] + [(p,) for p in places]:
+                    ticks = [{"wb": [], "wa": []} for _ in range(nt)]
+                    for n_, (i, sl) in enumerate(combo):
+                        ticks[i][sl].append(["P", 0, [["value", ["I", n_ + 1]]]])
+                    n1 = {"k": first, "neg": 0, "s": 0, "cl": cl, "by": by}
+                    n2 = {"k": second, "neg": 0, "s": 0, "cl": cl, "by": by}
+                    frames = [
+                        {"name": "A", "guard": [], "enter": [], "recur": [], "exit": [],
+                         "trans": [{"far": "=B", "needs": [n1]}, {"far": "=C", "needs": [n2]}]},
+                        {"name": "B", "guard": [], "enter": [], "recur": [], "exit": [], "trans": [{"far": "=A", "needs": []}]},
+                        {"name": "C", "guard": [], "enter": [], "recur": [], "exit": [], "trans": [{"far": "=A", "needs": []}]}]
+                    out.append({"period": "0.125", "inits": [[["value", ["I", 0]]]], "frames": frames, "ticks": ticks,
+                                "origin": "exhaustive"})
     return out
